@@ -567,6 +567,7 @@ struct World
         std::uint16_t used;                // features still in use (cumulative intersection)
         std::uint8_t  pending;             // 0 none, 1 version exchange, 2 connection parameter request
         std::uint8_t  answered;            // 0 no, 1 yes, 2 the statement does not say
+        std::uint8_t  awaiting_instant;    // the pending request was answered by an LL_CONNECTION_UPDATE_IND whose instant is not reached yet
         std::uint64_t elapsed;             // us since the own request was queued
     } ref;
 
@@ -634,6 +635,9 @@ struct World
                 else c.cls( std::string( "timeout: " ) + pending_name() + "->closed(0x22) at 40s" );
             }
             else if ( ref.pending && ref.answered == 2 ) c.cls( "timeout: unspecified answer->closed" );
+            else if ( ref.awaiting_instant && rec.reason == 0x22 )
+                c.fail( "response-timeout:closed-although-answered:connection-update-ind-before-instant",
+                        "the central answered the connection parameter request with LL_CONNECTION_UPDATE_IND in time, the response timer kept running until the instant and closed the link with 0x22" );
             else c.fail( mc::fmt( "response-timeout:closed-without-unanswered-procedure:%s", ref.pending ? "answered" : "nothing-pending" ), mc::fmt( "closed with reason 0x%02x", rec.reason ) );
             return false;
         }
@@ -681,7 +685,7 @@ struct World
             return true;
         case 0:
         {
-            const ex x = expectation( e.pdu[ 0 ], e.len, ref.version_answered != 0, ref.own_version_sent != 0 );
+            const ex x = expectation( e.pdu[ 0 ], e.len, ref.version_answered != 0 || ref.version_seen != 0 /* a repeated LL_VERSION_IND */, ref.own_version_sent != 0 );
             const std::uint16_t used_before = ref.used;
             if ( !conn_event( e.pdu, e.len, c ) ) return true;
             { const answer a0 = collect(); if ( a0.n_ctrl || a0.n_data ) { c.fail( "answer-before-request", show( a0 ) ); return true; } }
@@ -730,13 +734,14 @@ struct World
             const std::uint8_t p[ 12 ] = { CONNECTION_UPDATE_IND, 1, 0, 0, std::uint8_t( interval ), std::uint8_t( interval >> 8 ), 0, 0, std::uint8_t( supervision ), std::uint8_t( supervision >> 8 ), std::uint8_t( instant ), std::uint8_t( instant >> 8 ) };
             if ( !conn_event( p, 12, c ) ) return true;
             // LL_CONNECTION_UPDATE_IND is the central's answer to a connection parameter request
-            if ( ref.pending == 2 && ref.answered == 0 ) { c.cls( "procedure: conn-param-request-pending completed by connection-update-ind" ); ref.pending = 0; ref.elapsed = 0; }
+            if ( ref.pending == 2 && ref.answered == 0 ) { c.cls( "procedure: conn-param-request-pending completed by connection-update-ind" ); ref.pending = 0; ref.elapsed = 0; ref.awaiting_instant = 1; }
             for ( int i = 0; i != 4; ++i )
             {
                 if ( !conn_event( nullptr, 0, c ) ) return true;
                 const answer a = collect();
                 if ( a.n_ctrl || a.n_data ) { c.fail( "instant-pdu:answered:connection-update-ind", show( a ) ); return true; }
             }
+            ref.awaiting_instant = 0;
             c.cls( "seq: connection-update-ind applied" );
             return true;
         }
